@@ -348,7 +348,13 @@ class Lexer:
 
             elif state == 312:  # hex num second digit
                 tempbuf += ch
-                token += chr(int(tempbuf, 16))
+                try:
+                    token += chr(int(tempbuf, 16))
+                except ValueError:
+                    raise CklSyntaxError(
+                        f"Invalid hex escape \\x{tempbuf}",
+                        SourcePos(fname, line, column),
+                    )
                 tempbuf = ""
                 state = 3
 
@@ -385,7 +391,13 @@ class Lexer:
 
             elif state == 412:  # hex num second digit
                 tempbuf += ch
-                token += chr(int(tempbuf, 16))
+                try:
+                    token += chr(int(tempbuf, 16))
+                except ValueError:
+                    raise CklSyntaxError(
+                        f"Invalid hex escape \\x{tempbuf}",
+                        SourcePos(fname, line, column),
+                    )
                 tempbuf = ""
                 state = 4
 
@@ -448,7 +460,10 @@ class Lexer:
                     token += ch
                 elif ch in "()[]<>=! \t\n\r+-*/%,;#":
                     here = SourcePos(fname, line, column - len(token))
-                    token = str(int(token.replace("_", ""), 16))
+                    try:
+                        token = str(int(token.replace("_", ""), 16))
+                    except ValueError:
+                        raise CklSyntaxError("Invalid hex literal", here)
                     self.tokens.append(Token(token, "int", here))
                     token = ""
                     pos -= 1
@@ -463,9 +478,11 @@ class Lexer:
                     token += ch
                 elif ch in "()[]<>=! \t\n\r+-*/%,;#":
                     here = SourcePos(fname, line, column - len(token))
-                    self.tokens.append(
-                        Token(str(int(token.replace("_", ""), 2)), "int", here)
-                    )
+                    try:
+                        token = str(int(token.replace("_", ""), 2))
+                    except ValueError:
+                        raise CklSyntaxError("Invalid binary literal", here)
+                    self.tokens.append(Token(token, "int", here))
                     token = ""
                     pos -= 1
                     updatepos = False
